@@ -259,6 +259,9 @@ func (w *watchers) handlersIngress() []*hdlr {
 		{
 			typ: &networking.IngressClass{},
 			res: types.ResourceIngressClass,
+			// an ingress that references a missing or foreign class is not tracked,
+			// so only a full sync finds it when its class starts to be valid
+			full: true,
 			pr: []predicate.Predicate{
 				predicate.GenerationChangedPredicate{},
 				predicate.Funcs{
